@@ -21,6 +21,11 @@ use std::{
 };
 use tokio::io::{AsyncRead, ReadBuf};
 
+/// a call that can complete does so at once; this only bounds a broken implementation
+const HANG: Duration = Duration::from_secs(5);
+/// after this many hung cases the remaining cases of the process are not run
+static HANGS: std::sync::atomic::AtomicUsize = std::sync::atomic::AtomicUsize::new(0);
+
 use nextest_runner::verif_imp::{VerifAccState, VerifAccumulator, VerifFusedReader, VERIF_CHUNK_SIZE};
 
 /// xorshift64* byte stream, identical to e2e/puppet.py `prng_bytes` and Model/Capture.v `prng_bytes`.
@@ -146,7 +151,7 @@ fn run_fused(case: &Value) -> Value {
         let mut trace = Vec::new();
         let mut hang = false;
         for _ in 0..calls {
-            match tokio::time::timeout(Duration::from_secs(20), r.fill_buf()).await {
+            match tokio::time::timeout(HANG, r.fill_buf()).await {
                 Ok(res) => trace.push(json!([r.acc().len(), r.is_done(), res.is_err()])),
                 Err(_) => {
                     hang = true;
@@ -287,7 +292,7 @@ fn run_pipes(case: &Value, combined: bool) -> Value {
                     let mut left = if k == "r" { op[1].as_u64().unwrap_or(0) } else { 1_000_000 };
                     while left > 0 && can_progress(&acc.state(), &written, &writers) {
                         left -= 1;
-                        match tokio::time::timeout(Duration::from_secs(20), acc.fill_buf()).await {
+                        match tokio::time::timeout(HANG, acc.fill_buf()).await {
                             Ok(()) => trace.push(step_json(op_idx, &acc.state())),
                             Err(_) => {
                                 hang = true;
@@ -318,6 +323,18 @@ fn run_pipes(case: &Value, combined: bool) -> Value {
 }
 
 pub fn run(case: &Value) -> Value {
+    use std::sync::atomic::Ordering;
+    if HANGS.load(Ordering::Relaxed) >= 3 {
+        return json!({ "error": "skipped: three earlier cases hung", "hang": true });
+    }
+    let res = run_inner(case);
+    if res["hang"].as_bool() == Some(true) {
+        HANGS.fetch_add(1, Ordering::Relaxed);
+    }
+    res
+}
+
+fn run_inner(case: &Value) -> Value {
     match case["mode"].as_str().unwrap_or("") {
         "fused" => run_fused(case),
         "split" => run_pipes(case, false),
